@@ -208,9 +208,10 @@ impl<R: Round, const B: Word> FBig<R, B> {
     pub fn with_precision(self, precision: usize) -> Rounded<Self> {
         let new_context = Context::new(precision);
 
-        // shrink if necessary
-        let repr = if self.context.precision > precision {
-            // it also handles unlimited precision
+        // shrink if necessary (an unlimited precision is represented by 0)
+        let shrink = precision > 0
+            && (self.context.precision == 0 || self.context.precision > precision);
+        let repr = if shrink {
             new_context.repr_round(self.repr)
         } else {
             Exact(self.repr)
